@@ -22,9 +22,9 @@ Definition quiet (ce : cert) (th : thread) : Prop :=
   end.
 
 (** no fault is injected into an existence check (Exists has no error result: a failing check
-    reads as "absent") *)
+    reads as "absent"); the retry of an obtain starts with such a check *)
 Definition truthful_th (th : thread) (f : fault) : Prop :=
-  match tpc th with PPre _ | PRe _ => f = FNone | _ => True end.
+  match tpc th with PPre _ | PRe _ => f = FNone | PWait => cur th = OpRenew \/ f = FNone | _ => True end.
 
 Lemma tstep_quiet n L ce t th s f b th' s' e :
   on_key n L (cfg th) -> twf th -> quiet ce th ->
